@@ -1,6 +1,10 @@
 (* Glue between the token wire format and the C05 model/spec.  Extracted.
 
-   case  :=  CFG <enabled 0|1> <IsRandom 0|1> <threads 1..4> <sampler> "|" [ op { ";" op } ]
+   case  :=  CFG <enabled 0|1> <generator> <threads 1..4> <sampler> "|" [ op { ";" op } ]
+   generator := 0 | 1 (scripted IdGenerator with IsRandom() = 0 | 1: returns the ids written in each ST operation)
+              | 2 (the SDK's default RandomIdGenerator; the harness renames each id it hands out to the id written in the
+                   ST operation - first come first served, zero ids are not renamed - so a case whose written ids are fresh
+                   is observed exactly as with a scripted generator iff the real ids are non-zero and pairwise distinct)
    sampler := PB* (ON | OFF | RATIO <bits> | SCRIPT)
    op    :=  <thread> ST <parent> G <span id:8> <trace id:16> R <decision> <trace state | NULL> <n | -1> {<attribute value>}
           |  <thread> END <k> | <thread> WRAP <ctx> | <thread> CSP
@@ -175,18 +179,22 @@ Fixpoint parse_all {A B} (f : A -> option B) (l : list A) : option (list B) :=
   | x :: l' => match f x, parse_all f l' with Some y, Some r => Some (y :: r) | _, _ => None end
   end.
 
-Definition parse_cfg_cs (l : list tok) : option (bool * bool * nat * csampler) :=
+Definition parse_gen (t : tok) : option (option bool) :=      (* None = default generator *)
+  match t with TZ 0 => Some (Some false) | TZ 1 => Some (Some true) | TZ 2 => Some None | _ => None end.
+Definition parse_cfg_cs (l : list tok) : option (bool * option bool * nat * csampler) :=
   match l with
   | c :: en :: rnd :: nth :: s =>
-      match parse_bool en, parse_bool rnd, parse_nat nth, parse_cs s with
+      match parse_bool en, parse_gen rnd, parse_nat nth, parse_cs s with
       | Some e, Some r, Some n, Some cs =>
           if is_tag "CFG" c && Nat.leb 1 n && Nat.leb n 4 then Some (e, r, n, cs) else None
       | _, _, _, _ => None
       end
   | _ => None
   end.
+Definition cfg_of_gen (e : bool) (g : option bool) (cs : csampler) : cfg :=
+  match g with Some r => cfg_of e r cs | None => cfg_of_default e cs end.
 Definition parse_cfg (l : list tok) : option (cfg * nat) :=
-  match parse_cfg_cs l with Some (e, r, n, cs) => Some (cfg_of e r cs, n) | None => None end.
+  match parse_cfg_cs l with Some (e, r, n, cs) => Some (cfg_of_gen e r cs, n) | None => None end.
 (* the sampler of a case, for the coverage tag *)
 Definition case_sampler (l : list tok) : csampler :=
   match split_toks "|" l with
@@ -425,7 +433,7 @@ Definition run_tag (l : list tok) : list tok :=
   | Some (cf, n, ops) =>
       let fs := features cf (world0 n) ops in
       if existsb (fun o => match snd o with SStart _ _ _ _ => true | _ => false end) ops then
-        [tag ((if cf_enabled cf then "" else "disabled_") +++ cs_tag (case_sampler l) +++ "_" +++
+        [tag ((if cf_enabled cf then "" else "disabled_") +++ (if cf_defgen cf then "defgen_" else "") +++ cs_tag (case_sampler l) +++ "_" +++
               fold_right (fun f acc => if existsb (String.eqb f) fs then f +++ acc else acc) "" all_features)]
       else [tag "nostart"]
   | None => bad_case
